@@ -29,6 +29,8 @@ META['explanation'] += ' ' + 'R10: timestamp / flag primitives (C11.R4/R5). R11:
 
 META['explanation'] += ' ' + 'R14: numeric presence by truth value (shared with C01.R14). R15: ECDSA points (shared with C07.R12).'
 
+META['explanation'] += ' ' + 'R16: no local-time API (shared with C11.R3). R17: identification string, parser and composer evaluated (shared with C07.R6).'
+
 ZONE_LITERALS = ('GMT', 'UTC', "Z'", '+0000', '+00:00')
 
 
